@@ -214,7 +214,55 @@ func (c *Ctx) oblige1(st *State, name, kind string, claim *Term, src string, pos
 		c.Obs = append(c.Obs, &Obligation{Name: name, Kind: kind, Fn: fnDisplay(c.Fn), Claim: claim, Src: src, Pos: c.Eng.posStr(pos), Path: st.PathID, Ctx: c})
 		return
 	}
-	c.Obs = append(c.Obs, &Obligation{Name: name, Kind: kind, Fn: fnDisplay(c.Fn), PC: append([]*Term(nil), st.PC...), Claim: claim, Src: src, Pos: c.Eng.posStr(pos), Path: st.PathID, Ctx: c})
+	c.Obs = append(c.Obs, &Obligation{Name: name, Kind: kind, Fn: fnDisplay(c.Fn), PC: c.visiblePC(st.PC, name), Claim: claim, Src: src, Pos: c.Eng.posStr(pos), Path: st.PathID, Ctx: c})
+}
+
+// `opt isolate inv l1 l2 ...`: the loop invariant labelled inv is an assumption only for the obligations labelled inv,
+// l1, l2, ... (its own preservation and the clauses that need it).  Every other obligation is proved WITHOUT it -
+// from fewer assumptions, which is sound - so that an invariant added for one clause cannot slow down or destabilise
+// the proofs of the others.
+func (c *Ctx) isolatedInv(label string) bool {
+	if c.Spec == nil || label == "" {
+		return false
+	}
+	f := strings.Fields(c.Spec.Opts["isolate"])
+	return len(f) > 0 && f[0] == label
+}
+
+func (c *Ctx) markIsolated(t *Term, label string) {
+	if c.isolated == nil {
+		c.isolated = map[int]string{}
+	}
+	if t.Op == "and" {
+		for _, a := range t.Args {
+			c.markIsolated(a, label)
+		}
+		return
+	}
+	c.isolated[t.id] = label
+}
+
+func (c *Ctx) visiblePC(pc []*Term, name string) []*Term {
+	out := append([]*Term(nil), pc...)
+	if len(c.isolated) == 0 {
+		return out
+	}
+	lbl := ""
+	if i := strings.LastIndex(name, "#"); i >= 0 {
+		lbl = name[i+1:]
+	}
+	for _, l := range strings.Fields(c.Spec.Opts["isolate"]) {
+		if l == lbl {
+			return out
+		}
+	}
+	out = out[:0]
+	for _, f := range pc {
+		if _, iso := c.isolated[f.id]; !iso {
+			out = append(out, f)
+		}
+	}
+	return out
 }
 
 // safety obligation attached to an instruction
@@ -506,6 +554,9 @@ func (c *Ctx) enterBlock(st *State, b *ssa.BasicBlock) bool {
 	env.atLoop = loop
 	for _, inv := range ls.Invariants {
 		t := c.evalBool(env, inv.Expr)
+		if c.isolatedInv(inv.Label) {
+			c.markIsolated(t, inv.Label)
+		}
 		st.assume(t)
 	}
 	if ls.Decreases != nil {
